@@ -104,17 +104,23 @@ def oracle(case, out):
                 deliveries.append((off, total, ln, eq))
         elif k == "HC":
             code = int(f[1])
+            late = False
             if f[3] != "T":
-                # after the transfer concluded (final response or NACK seen by the application)
-                # and the client released its lg_xmit/lg_crcv: a late reply caused by a network
-                # duplicate can no longer be mapped to the application's token
-                stale = cli_state == (0, 0) and (success + errors + nacks) > 0 and not case.lossless()
+                # after the transfer concluded (final response or NACK given to the application)
+                # a late reply - the answer to a duplicated datagram, or to a request of the
+                # transfer (ETag restart) that was still outstanding - can no longer be mapped
+                # to the application's token
+                late = (success + errors + nacks) > 0 and not case.lossless()
                 bad.append("%s response handler saw token %s, the application's is %s" %
-                           ("O3STALE" if stale else "O3", f[2], case.tok))
-                continue
+                           ("O3STALE" if late else "O3", f[2], case.tok))
             if code >> 5 == 2:
                 if case.dir == "b2":
                     off, total, ln, eq = int(f[4]), int(f[5]), int(f[6]), f[8]
+                    if late:
+                        # reported as O3STALE; the bytes must still be the body's
+                        if eq != "=" or off + ln > case.len:
+                            bad.append("O1 late reply delivered bytes that are not the body's: off=%d len=%d" % (off, ln))
+                        continue
                     deliveries.append((off, total, ln, eq))
                     # in per-block mode every block is a response; the last one counts
                     if single_rx or off + ln >= total:
@@ -344,6 +350,18 @@ def tie_lines(case, out):
         if cur is not None:
             cur.append(f)
     close()
+    if case.dir == "b2" and "D" in obs:
+        # after the delivery the lg_crcv is gone; whether a later block finds or makes a new
+        # one is decided by tokens and the send queue, which the reassembly model leaves out
+        cut = obs.index("D") + 1
+        nblk = 0
+        for i, t in enumerate(toks):
+            if t != "R":
+                nblk += 1
+                if nblk == cut:
+                    toks = toks[:i + 1]
+                    break
+        obs = obs[:cut]
     mx = case.srv_szx if case.srv_szx != 7 else 0
     recv_line = "blkrecv %s %d %d %d %s" % (case.dir, case.len, case.seed, mx, " ".join(toks))
     return wire_line, recv_line, "".join(obs)
